@@ -4,7 +4,7 @@
    flags, the finder's fallback on sys.path and the option forwarding of the public entry points are the definitions of
    Gen/C15_ladder.v, regenerated from loader.py / importer.py / finder.py / cli.py on every run. *)
 From Coq Require Import List ZArith String Bool Arith.
-From Verif Require Import Lib.Sexp Model.C15_base Gen.C15_ladder Model.C15_loader Proofs.C15_loader Proofs.C15_restore Proofs.C15_failures Proofs.C15_reads.
+From Verif Require Import Lib.Sexp Model.C15_base Gen.C15_ladder Model.C15_loader Proofs.C15_loader Proofs.C15_restore Proofs.C15_failures Proofs.C15_reads Proofs.C15_history.
 Import ListNotations.
 Open Scope list_scope. Open Scope nat_scope.
 
@@ -198,3 +198,13 @@ Theorem C15_reads_are_sources :
     reads_source_only s -> run_phases allow force store phases s = (r, s') -> reads_source_only s'.
 Proof. exact reads_are_sources. Qed.
 Print Assumptions C15_reads_are_sources.
+
+(* A history of calls on ONE loader refines to the stateless reading: with search paths given and a caller that lets
+   failures through, it is the same calls made on fresh loaders built by griffe.load with the same options (so every
+   entry-point theorem applies to histories, and the loader carries nothing from call to call that matters here). *)
+Theorem C15_history_refines_to_fresh_loaders :
+  forall w allow force store g r syspath steps s,
+    run_history w allow force store (finder_paths (g :: r) syspath) [] steps s =
+    run_phases allow force store (map (phase_of_step w (g :: r)) steps) s.
+Proof. exact history_refines_to_fresh_loaders. Qed.
+Print Assumptions C15_history_refines_to_fresh_loaders.
